@@ -59,7 +59,7 @@ var (
 // ireturnOn: the result context "the expression is returned by a function whose result type is
 // interface{}" (func f(a T) interface{} { return -a }). Its first run showed a family of defects of the
 // interpreter (comparisons, %, shifts panic; -a and ^a yield nil); held back until the repair is in /repo.
-var ireturnOn = false
+var ireturnOn = true
 
 func hash64(parts ...string) uint64 {
 	h := fnv.New64a()
